@@ -33,6 +33,12 @@ class DIB(ABC):
     classes.
     """
 
+    def __eq__(self, other: object) -> bool:
+        """Equal operator."""
+        return type(self) is type(other) and self.__dict__ == other.__dict__
+
+    __hash__ = None  # type: ignore[assignment]
+
     @abstractmethod
     def calculated_length(self) -> int:
         """Get length of KNX/IP object."""
